@@ -87,13 +87,23 @@ def error_json(e):
 
 
 def parse_outcome(parser, text, positions=False, meta=False, tree=True, seconds=20, **kw):
+    err = None
     try:
         with budget(seconds):
             t = parser.parse(text, **kw)
     except (Hang, MemoryError):
         return {'out': 'hang', 'ui': False, 'cls': 'Hang'}
     except Exception as e:
-        return error_json(e)
+        err = e
+    if err is not None:
+        # UnexpectedToken.accepts is computed lazily by trial feeding: it can loop where the automaton loops
+        try:
+            with budget(seconds):
+                return error_json(err)
+        except (Hang, MemoryError):
+            d = {'out': 'reject', 'cls': type(err).__name__, 'ui': True, 'pos': getattr(err, 'pos_in_stream', -1) or -1,
+                 'accepts': None, 'accepts_hang': True, 'expected': []}
+            return d
     d = {'out': 'accept', 'ui': False, 'cls': ''}
     if tree:
         d['tree'] = tree_json(t, positions, meta)
